@@ -33,7 +33,7 @@ RULE = (
     "Distinct by (transport, sync/async, option combination, datagram category sequence prefix, outcome)."
 )
 RULE += " " + (
-    "Also: udp_with_fallback with independently varied options on both legs; replies in another question class or repeating the question; a stream of skipped datagrams each taking virtual time (at most one read after the deadline); would-block sends under the one deadline; the real asyncio backend on loopback with no time left."
+    "Also: udp_with_fallback with independently varied options on both legs; replies in another question class or repeating the question; a stream of skipped datagrams each taking virtual time (at most one read after the deadline); would-block sends under the one deadline; the real asyncio backend on loopback with no time left. send_tcp given Message objects (plain, padded, signed)."
 )
 ASSUMPTIONS = [
     "reference decision for datagram sequences and the independent acceptability predicate (wire walker) in this file",
